@@ -434,6 +434,14 @@ def generic_main(prop, module, level, cases, bound, case_bounds, rule, assumptio
     from mc import runner
     from mc.explore import Explorer
 
+    flt = os.environ.get("VERIF_CASE_FILTER")  # debugging aid: substring of the case's JSON
+    if flt:
+        import json as _json
+
+        keep = [i for i, c in enumerate(cases) if flt in _json.dumps(c, sort_keys=True)]
+        case_bounds = {j: case_bounds[i] for j, i in enumerate(keep) if i in case_bounds}
+        cases = [cases[i] for i in keep]
+        print(f"[{prop}] VERIF_CASE_FILTER keeps {len(cases)} cases (debug run, evidence not representative)")
     rep = runner.Report(prop, args.tier, level, runner.seed())
     with Explorer(module.__name__, cases, workers=args.workers, seed=runner.seed()) as exp:
         stats, completed, levels = exp.run(max([bound] + list(case_bounds.values())), time_cap=args.time_cap or time_cap, case_bounds=case_bounds)
